@@ -118,15 +118,32 @@ def assigned_names(node):
     return out
 
 
+_STORE_CACHE = {}
+
+
+def _stores(func):
+    """{name: [binding nodes]} of a function (cached per function object)."""
+    hit = _STORE_CACHE.get(id(func))
+    if hit is not None and hit[0] is func:
+        return hit[1]
+    table = {}
+    for n in ast.walk(func):
+        if isinstance(n, ast.Name) and isinstance(n.ctx, ast.Store):
+            table.setdefault(n.id, []).append(n)
+        elif isinstance(n, ast.AugAssign) and isinstance(n.target, ast.Name):
+            table.setdefault(n.target.id, []).append(n)
+    if len(_STORE_CACHE) > 4000:
+        _STORE_CACHE.clear()
+    _STORE_CACHE[id(func)] = (func, table)
+    return table
+
+
 def _killers(func, names):
     """Statements in func that rebind any of names (including nonlocal rebinding in closures)."""
+    table = _stores(func)
     out = []
-    for n in ast.walk(func):
-        if isinstance(n, ast.Name) and isinstance(n.ctx, ast.Store) and n.id in names:
-            out.append(n)
-        elif isinstance(n, ast.AugAssign) and isinstance(n.target, ast.Name) \
-                and n.target.id in names:
-            out.append(n)
+    for nm in names:
+        out.extend(table.get(nm, ()))
     return out
 
 
@@ -236,8 +253,8 @@ def _expand_test(test, func, origin):
         neg, inner = True, inner.operand
     if not isinstance(inner, ast.Name):
         return test
-    binds = [n for n in ast.walk(func) if isinstance(n, ast.Name) and isinstance(n.ctx, ast.Store) and n.id == inner.id]
-    if len(binds) != 1:
+    binds = [n for n in _stores(func).get(inner.id, ()) if isinstance(n, ast.Name)]
+    if len(binds) != 1 or len(_stores(func).get(inner.id, ())) != 1:
         return test
     st = stmt_of(binds[0])
     if not (isinstance(st, ast.Assign) and len(st.targets) == 1 and st.targets[0] is binds[0]):
